@@ -276,6 +276,15 @@ func runExtList(e *env) error {
 		lines  []string
 		vars   bool
 		global bool
+		final  string // the output package in effect at the end (set by output:package lines before / after the extend lines)
+	}
+	// output:package lines around the extend lines: an unexported function is usable exactly when the FINAL output package
+	// is its own package, wherever the extend line stands
+	type around struct{ pre, post, final string }
+	arounds := []around{
+		{mod + "/p", "", mod + "/p"},                       // output in p: unexported functions of p are accessible
+		{mod + "/p", mod + "/p/generated", mod + "/p/generated"}, // moved away afterwards: not accessible any more
+		{mod + "/p/generated", "", mod + "/p/generated"},
 	}
 	for _, global := range []bool{false, true} {
 		root := filepath.Join(e.scratch, fmt.Sprintf("extlist%v", global))
@@ -296,10 +305,21 @@ func runExtList(e *env) error {
 				lines.WriteString("// goverter:extend " + l + "\n")
 			}
 			fmt.Fprintf(&conv, "// goverter:converter\n%stype %s interface {\n\tConvert(source A) B\n}\n\n", lines.String(), n)
-			cases = append(cases, ec{n, ls, false, global})
+			cases = append(cases, ec{n, ls, false, global, ""})
+			if !global && (strings.Contains(strings.Join(ls, " "), "extAToC") || i < 3) {
+				for k, ar := range arounds {
+					an := fmt.Sprintf("Conv%dAr%d", i, k)
+					pre, post := "// goverter:output:package "+ar.pre+"\n", ""
+					if ar.post != "" {
+						post = "// goverter:output:package " + ar.post + "\n"
+					}
+					fmt.Fprintf(&conv, "// goverter:converter\n%s%s%stype %s interface {\n\tConvert(source A) B\n}\n\n", pre, lines.String(), post, an)
+					cases = append(cases, ec{an, ls, false, global, ar.final})
+				}
+			}
 			vf := fmt.Sprintf("p/vars%d.go", i)
 			files[vf] = fmt.Sprintf("package p\n\n// goverter:variables\n%svar (\n\tVarConv%d func(source A) B\n)\n", lines.String(), i)
-			cases = append(cases, ec{"vars@" + fmt.Sprintf("vars%d", i), ls, true, global})
+			cases = append(cases, ec{"vars@" + fmt.Sprintf("vars%d", i), ls, true, global, ""})
 		}
 		files["p/conv.go"] = "package p\n\n" + conv.String()
 		if err := scratch.Write(root, files); err != nil {
@@ -363,7 +383,7 @@ func runExtList(e *env) error {
 				for _, name := range strings.Fields(l) {
 					pkg, pat, scope := mod+"/p", name, pp.Types.Scope()
 					// the output of a variables block is the declaring package p: its unexported objects are accessible
-					unexp := c.vars
+					unexp := c.vars || c.final == mod+"/p"
 					own := ownContexts(extSelDecls)
 					if strings.HasPrefix(name, q) {
 						pkg, pat, scope, unexp = mod+"/q", strings.TrimPrefix(name, q), pq.Types.Scope(), false
@@ -375,7 +395,7 @@ func runExtList(e *env) error {
 			}
 			reqs = append(reqs, req)
 			impl = append(impl, im)
-			descr = append(descr, map[string]any{"converter": c.name, "extend_lines": c.lines, "global_lines": globals, "variables_block": c.vars})
+			descr = append(descr, map[string]any{"converter": c.name, "extend_lines": c.lines, "global_lines": globals, "variables_block": c.vars, "final_output_package": c.final})
 			e.rep.Count("extlist." + im.Head())
 			e.rep.Nontrivial(fmt.Sprint(c.name, c.lines, global))
 		}
